@@ -58,9 +58,14 @@ ObsClosed(ev) == RangeOf(ev.closed)
 FullMatch(cand, ev) == ProjEq(cand.emit, ev.emit, AnyF) /\ cand.closed = ObsClosed(ev)
 
 (* properties whose projection of the observed outputs no allowed outcome reproduces *)
+HasFailure(cand) ==   \* the specification expects a delivery failure / departure in this step
+  cand.closed # {} \/ \E c \in DOMAIN cand.emit : \E i \in 1..Len(cand.emit[c]) : IsFailed(cand.emit[c][i])
 FailedProps(Cands, ev) ==
   LET no(P(_)) == \A cand \in Cands : ~ProjEq(cand.emit, ev.emit, P) IN
      (IF no(IsData) THEN {"C01"} ELSE {})
+\cup (IF no(IsData) /\ (\E cand \in Cands : HasFailure(cand)) /\ (\E cand \in Cands : cand.closed # {})
+      THEN {"C07.SurvivorMissed"} ELSE {})
+\cup (IF no(IsData) /\ (\E cand \in Cands : HasFailure(cand)) THEN {"C14.OthersMissed"} ELSE {})
 \cup (IF no(IsFailed) THEN {"C14"} ELSE {})
 \cup (IF no(IsAck) THEN {"C19"} ELSE {})
 \cup (IF no(IsClosedN) \/ (\A cand \in Cands : cand.closed # ObsClosed(ev)) THEN {"C07"} ELSE {})
